@@ -9,7 +9,8 @@ From LV Require Import Base.Bytes Model.Obj Model.Crypto.Word Model.Crypto.RC4 M
   Proofs.CryptoProofsDoc Proofs.CryptoProofsExamples Proofs.CryptoProofsAES Model.Crypto.Concrete
   Proofs.CryptoProofsSHA Proofs.IsoProofsDoc2 Proofs.IsoProofsDoc7 Proofs.CryptoProofsAuth Proofs.CryptoProofsRT.
 (* the composition with property C01 (save and reload) *)
-From LV Require Model.Loader Model.LoaderCrypt Spec.SaveSpec Proofs.LoadProofsXref Proofs.ComposeCrypt Proofs.ComposeCryptExample.
+From LV Require Model.Loader Model.LoaderCrypt Spec.SaveSpec Proofs.LoadProofsXref Proofs.ComposeCrypt Proofs.ComposeCryptExample
+  Proofs.ComposeCryptDomain.
 
 (* lopdf's RC4: decrypting what was encrypted under the same key gives the message back, for every key
    the constructor accepts (1..256 bytes; any other length panics = None) and every message *)
@@ -416,6 +417,114 @@ Theorem C05_decrypt_commutes_with_normal_form :
     match decrypt_object P st id o with Ok o' => Ok (Proofs.ObjectRtProofs.norm_obj o') | Err e => Err e | Panic => Panic end.
 Proof. exact ComposeCrypt.decrypt_norm. Qed.
 
+(* ---------------- the encrypted document is in the writer's domain (Proofs/ComposeCryptDomain.v) ----------------
+   Document::encrypt keeps a document inside property C01's domain: if the PLAIN document d is [savable] (C01's domain:
+   notes/C01.md), outside C01's known class, every object number is at most max_id ([max_id_ok], as in C05_document_rt)
+   and there is u32 room for one more object number, then the encrypted document d1 is in [savable_enc] (= [savable]
+   without "no Encrypt entry") and outside the known class:
+     * every object encrypt_object returns is well formed: a ciphertext string is a string (any bytes), dictionary keys
+       are kept (so they stay unique), Stream::set_content writes Length = the length of the ciphertext as a direct
+       integer, and that integer is an i64 because the body lies in a file below 4 GiB ([small_file xt d1]: the only use
+       of that hypothesis here; in lopdf the length of a Vec is an i64 by type);
+     * Type / Linearized are not touched, so no object the writer drops (ObjStm, XRef, Linearized) appears;
+     * the dictionary EncryptionState::encode writes is well formed (i64 integers V, R, Length, P; names; strings; the
+       CF dictionary of crypt filter dictionaries), has no Type entry and nests 3 deep;
+     * add_object puts it under max_id + 1, after every object: the numbers stay strictly increasing;
+     * nothing nests deeper than before (set_content replaces Length by an integer), the trailer gets one reference. *)
+Theorem C05_encrypt_preserves_savable :
+  forall P xt d v rnd ivs st d1,
+    version_in_domain v -> try_from_version P d v rnd = Ok st ->
+    SaveSpec.savable d -> SaveSpec.known_deep d = false -> max_id_ok d ->
+    (d_max_id d + 3 < Model.Save.u32_mod)%N ->
+    doc_encrypt P st d ivs = DOk d1 tt -> SaveSpec.small_file xt d1 ->
+    SaveSpec.savable_enc d1 /\ SaveSpec.known_deep d1 = false.
+Proof.
+  intros P xt d v rnd ivs st d1 Hv Htry S K Hmax Hroom Henc Hs.
+  exact (ComposeCryptDomain.encrypt_preserves_savable P xt st d ivs d1 S K Hmax Hroom
+           (ComposeCryptDomain.try_from_version_i64 P d v rnd st Hv Htry) Henc Hs).
+Qed.
+
+(* C05_encrypt_save_load_decrypt WITHOUT the hypotheses on the shape of the encrypted document: the plain document d
+   is in C01's domain and outside its known class, [max_id_ok d], room for one more object number; of the encrypted
+   document only the file size is assumed ([small_file xt d1], below 4 GiB: the writer's offsets are u32).  That one is
+   not derived from the size of the plain file: a ciphertext is up to 32 bytes longer than its plaintext (IV + padding),
+   but the WRITTEN length of a ciphertext string depends on its bytes (a literal string escapes parentheses, backslash
+   and CR: up to twice as long), so no bound of the form |save d| + c * (number of strings and streams) holds; an honest
+   bound is about 2 * |save d| and needs a length comparison through the whole writer (the same obstacle as for
+   [small_file xt (reloaded xt d)] in C01_full, see notes/C01.md). *)
+Theorem C05_encrypt_save_load_decrypt_full :
+  forall P,
+    (forall m, length (p_md5 P m) = 16%nat) -> aes_ok P ->
+    (forall m, length (p_sha256 P m) = 32%nat) -> (forall m, length (p_sha384 P m) = 48%nat) ->
+    (forall m, length (p_sha512 P m) = 64%nat) ->
+  forall can xt d v rnd ivs st d1,
+    version_in_domain v -> max_id_ok d -> SaveSpec.savable d -> SaveSpec.known_deep d = false ->
+    (d_max_id d + 3 < Model.Save.u32_mod)%N ->
+    try_from_version P d v rnd = Ok st -> doc_encrypt P st d ivs = DOk d1 tt ->
+    SaveSpec.small_file xt d1 ->
+    exists x : Model.Save.xmap, Forall LoadProofsXref.normal_ok x /\
+      LoaderCrypt.load_crypt P can (Model.Save.so_bytes (Model.Save.save xt d1)) =
+        LoaderCrypt.after_crypt P (LoadProofsXref.conv_map x) (SaveSpec.reloaded xt d1) (SaveSpec.xtype_of xt) /\
+      (forall e, LoaderCrypt.authenticate_password P d1 [] = Err e ->
+         LoaderCrypt.load_crypt P can (Model.Save.so_bytes (Model.Save.save xt d1)) = LoaderCrypt.CLoad (Loader.LOk (SaveSpec.reloaded xt d1) (SaveSpec.xtype_of xt))) /\
+      (forall xr pw, right_password P d1 v pw ->
+         exists d2 st', doc_decrypt_x P xr (SaveSpec.reloaded xt d1) pw = DOk d2 st' /\ st_equiv st st' /\
+                        SaveSpec.same_doc d d2 /\ dict_get (d_trailer d2) K_Encrypt = None /\
+                        d_binary_mark d2 = d_binary_mark d) /\
+      (right_password P d1 v [] ->
+         exists d2, LoaderCrypt.load_crypt P can (Model.Save.so_bytes (Model.Save.save xt d1)) = LoaderCrypt.CLoad (Loader.LOk d2 (SaveSpec.xtype_of xt)) /\
+                    SaveSpec.same_doc d d2 /\ dict_get (d_trailer d2) K_Encrypt = None /\
+                    d_binary_mark d2 = d_binary_mark d).
+Proof. exact ComposeCryptDomain.encrypt_save_load_decrypt_dom. Qed.
+
+(* the same for the executable model, with no hypothesis on the primitives *)
+Theorem C05_encrypt_save_load_decrypt_full_concrete :
+  forall dec, let P := concrete_with dec in
+  forall can xt d v rnd ivs st d1,
+    version_in_domain v -> max_id_ok d -> SaveSpec.savable d -> SaveSpec.known_deep d = false ->
+    (d_max_id d + 3 < Model.Save.u32_mod)%N ->
+    try_from_version P d v rnd = Ok st -> doc_encrypt P st d ivs = DOk d1 tt ->
+    SaveSpec.small_file xt d1 ->
+    exists x : Model.Save.xmap, Forall LoadProofsXref.normal_ok x /\
+      LoaderCrypt.load_crypt P can (Model.Save.so_bytes (Model.Save.save xt d1)) =
+        LoaderCrypt.after_crypt P (LoadProofsXref.conv_map x) (SaveSpec.reloaded xt d1) (SaveSpec.xtype_of xt) /\
+      (forall e, LoaderCrypt.authenticate_password P d1 [] = Err e ->
+         LoaderCrypt.load_crypt P can (Model.Save.so_bytes (Model.Save.save xt d1)) = LoaderCrypt.CLoad (Loader.LOk (SaveSpec.reloaded xt d1) (SaveSpec.xtype_of xt))) /\
+      (forall xr pw, right_password P d1 v pw ->
+         exists d2 st', doc_decrypt_x P xr (SaveSpec.reloaded xt d1) pw = DOk d2 st' /\ st_equiv st st' /\
+                        SaveSpec.same_doc d d2 /\ dict_get (d_trailer d2) K_Encrypt = None /\
+                        d_binary_mark d2 = d_binary_mark d) /\
+      (right_password P d1 v [] ->
+         exists d2, LoaderCrypt.load_crypt P can (Model.Save.so_bytes (Model.Save.save xt d1)) = LoaderCrypt.CLoad (Loader.LOk d2 (SaveSpec.xtype_of xt)) /\
+                    SaveSpec.same_doc d d2 /\ dict_get (d_trailer d2) K_Encrypt = None /\
+                    d_binary_mark d2 = d_binary_mark d).
+Proof.
+  intros dec P. apply (ComposeCryptDomain.encrypt_save_load_decrypt_dom P);
+    [exact md5_len16 | exact (concrete_with_aes_ok dec) | exact sha256_length | exact sha384_length | exact sha512_length].
+Qed.
+
+(* non-vacuity: C05's example document is in C01's domain [savable], outside the known class, has room for the
+   encryption dictionary; under V2 / 128-bit RC4 (state and encrypted document computed by the executable model) the
+   encrypted document is below 4 GiB in both formats; [savable_enc d1] and [known_deep d1 = false] FOLLOW
+   (C05_encrypt_preserves_savable, not a test on d1); the empty password does not open it -- the load of the
+   table-format file returns [reloaded XTable d1], still encrypted --, and "user" is a right password *)
+Theorem C05_example_save_load_full :
+  match ComposeCryptExample.ex_st, ComposeCryptExample.ex_d1 with
+  | Some st, Some d1 =>
+    try_from_version concrete ex_doc ex_v2 ComposeCryptExample.ex_rnd = Ok st /\
+    doc_encrypt concrete st ex_doc ex_ivs = DOk d1 tt /\
+    version_in_domain ex_v2 /\ max_id_ok ex_doc /\ SaveSpec.savable ex_doc /\ SaveSpec.known_deep ex_doc = false /\
+    (d_max_id ex_doc + 3 < Model.Save.u32_mod)%N /\
+    SaveSpec.small_file Model.Save.XTable d1 /\ SaveSpec.small_file Model.Save.XStream d1 /\
+    ComposeCryptDomain.st_i64 st /\ SaveSpec.savable_enc d1 /\ SaveSpec.known_deep d1 = false /\
+    LoaderCrypt.authenticate_password concrete d1 [] = Err D_IncorrectPassword /\
+    right_password concrete d1 ex_v2 ex_user /\
+    LoaderCrypt.load_crypt concrete (fun _ => false) (Model.Save.so_bytes (Model.Save.save Model.Save.XTable d1)) =
+      LoaderCrypt.CLoad (Loader.LOk (SaveSpec.reloaded Model.Save.XTable d1) Model.Xref.XTTable)
+  | _, _ => False
+  end.
+Proof. exact ComposeCryptExample.compose_example_dom. Qed.
+
 Print Assumptions C05_rc4_involutive.
 Print Assumptions C05_rc4_total.
 Print Assumptions C05_pkcs5_unpad_pad.
@@ -454,3 +563,7 @@ Print Assumptions C05_encrypt_save_load_decrypt_concrete.
 Print Assumptions C05_decrypt_commutes_with_normal_form.
 Print Assumptions C05_example_save_load.
 Print Assumptions C05_load_attempt_without_encrypt.
+Print Assumptions C05_encrypt_preserves_savable.
+Print Assumptions C05_encrypt_save_load_decrypt_full.
+Print Assumptions C05_encrypt_save_load_decrypt_full_concrete.
+Print Assumptions C05_example_save_load_full.
